@@ -9,6 +9,20 @@ use qrlew::data_type::{DataType, Variant as _};
 use serde_json::json;
 
 fn target(r: &mut Rng, a: &DataType) -> DataType {
+    if matches!(a, DataType::Struct(_)) && r.chance(1, 2) {
+        // liftings are the only conversions a struct has
+        if let DataType::Struct(s) = a {
+            let drop = r.chance(1, 2);
+            return DataType::structured(
+                s.fields()
+                    .iter()
+                    .enumerate()
+                    .filter(|(i, _)| !(drop && *i > 0))
+                    .map(|(_, (n, t))| (n.clone(), if r.bool() { (**t).clone() } else { target(r, t) }))
+                    .collect::<Vec<_>>(),
+            );
+        }
+    }
     match r.below(16) {
         0 | 1 => DataType::float(),
         2 | 3 => DataType::integer(),
@@ -22,9 +36,18 @@ fn target(r: &mut Rng, a: &DataType) -> DataType {
             // liftings: same shape, converted inside
             DataType::List(l) => DataType::list(target(r, l.data_type()), 0, 10),
             DataType::Optional(o) => DataType::optional(target(r, o.data_type())),
-            DataType::Struct(s) => DataType::structured(
-                s.fields().iter().map(|(n, t)| (n.clone(), target(r, t))).collect::<Vec<_>>(),
-            ),
+            DataType::Struct(s) => {
+                // same fields, or only some of them (the others are carried over unchanged)
+                let drop = r.chance(1, 3);
+                DataType::structured(
+                    s.fields()
+                        .iter()
+                        .enumerate()
+                        .filter(|(i, _)| !(drop && *i > 0))
+                        .map(|(_, (n, t))| (n.clone(), if r.bool() { (**t).clone() } else { target(r, t) }))
+                        .collect::<Vec<_>>(),
+                )
+            }
             DataType::Set(l) => DataType::set(target(r, l.data_type()), 0, 10),
             DataType::Array(l) => DataType::array(target(r, l.data_type()), l.shape()),
             _ => DataType::Any,
@@ -46,7 +69,9 @@ fn source(r: &mut Rng) -> DataType {
         7 => DataType::DateTime(gen_datetime(r)),
         8 => {
             // float types made of integral values (convertible to integer)
-            let vs: Vec<f64> = (0..1 + r.usize(4)).map(|_| int_any(r) as f64).collect();
+            let vs: Vec<f64> = (0..1 + r.usize(4))
+                .map(|_| if r.chance(1, 6) { *r.pick(&[1e19, -1e19, 1e30, 2e30, -3e25, 9.3e18, -9.3e18, 1.8e19]) } else { int_any(r) as f64 })
+                .collect();
             DataType::float_values(vs)
         }
         9 => DataType::integer_values([0, 1]),
@@ -84,8 +109,22 @@ fn neighbour(r: &mut Rng, v: &Value, a: &DataType) -> Option<Value> {
             Value::text(t)
         }
         Value::Date(d) => Value::date(d.succ_opt()?),
-        Value::DateTime(d) => Value::date_time(d.checked_add_signed(chrono::Duration::seconds(1))?),
+        Value::DateTime(d) => Value::date_time(d.checked_add_signed(if r.bool() { chrono::Duration::seconds(1) } else { chrono::Duration::milliseconds(500) })?),
         Value::Boolean(b) => Value::boolean(!**b),
+        Value::Struct(st) => {
+            // change exactly one field
+            let fields: Vec<(String, Value)> = st.fields().iter().map(|(n, x)| (n.clone(), (**x).clone())).collect();
+            if fields.is_empty() {
+                return None;
+            }
+            let k = r.usize(fields.len());
+            let ft = match a {
+                DataType::Struct(s) => s.fields().iter().find(|(n, _)| *n == fields[k].0).map(|(_, t)| (**t).clone())?,
+                _ => return None,
+            };
+            let nv = neighbour(r, &fields[k].1, &ft)?;
+            Value::structured(fields.iter().enumerate().map(|(i, (n, x))| (n.clone(), if i == k { nv.clone() } else { x.clone() })).collect::<Vec<_>>())
+        }
         _ => return gen_value_in(r, a),
     };
     if member_premise(&cand, a) == Some(true) {
@@ -109,6 +148,17 @@ fn beyond(v: &Value) -> bool {
         }
     }
     walk(v)
+}
+
+/// an integer beyond 2^53 somewhere in the value (the known inexact direction is integer -> float)
+fn beyond_int(v: &Value) -> bool {
+    match v {
+        Value::Optional(o) => o.as_deref().map_or(false, beyond_int),
+        Value::Struct(s) => s.fields().iter().any(|(_, x)| beyond_int(x)),
+        Value::List(l) => l.iter().any(beyond_int),
+        Value::Integer(i) => i.unsigned_abs() > (1u64 << 53),
+        _ => false,
+    }
 }
 
 fn case(i: u64, p: &Params, rep: &mut Report) {
@@ -146,6 +196,26 @@ fn case(i: u64, p: &Params, rep: &mut Report) {
         }
     };
     rep.count(&format!("converted:{}", pair));
+    // a finite set of n values cannot convert to a finite set of fewer values
+    // (scalars only: a struct conversion carries the fields absent from the target over in the values, not in the type)
+    let scalar_source = !matches!(a, DataType::Struct(_) | DataType::Union(_) | DataType::List(_) | DataType::Set(_) | DataType::Array(_) | DataType::Optional(_));
+    if !scalar_source {
+    } else if let (Ok(src), Ok(dst)) = (TryInto::<Vec<Value>>::try_into(a.clone()), TryInto::<Vec<Value>>::try_into(t.clone())) {
+        rep.count("finite_sets_compared");
+        let zero = src.iter().any(|v| matches!(v, Value::Float(f) if **f == 0.0));
+        if dst.len() < src.len() && !zero {
+            rep.eval();
+            rep.violation(
+                if src.iter().any(beyond_int) {
+                    "C12|type-level-collapse|some number beyond 2^53 (integer -> float is not exact there)".to_string()
+                } else {
+                    format!("C12|type-level-collapse|{}", pair)
+                },
+                format!("the {} values of {} convert to only {} values: {}", src.len(), a, dst.len(), t),
+                json!({"A": a.to_string(), "B": b.to_string(), "converted_type": t.to_string()}),
+            );
+        }
+    }
     // into_data_type is the same thing by another door
     if let Ok(Ok(t2)) = guarded(|| a.into_data_type(&b)) {
         if t2 != t {
@@ -189,7 +259,9 @@ fn case(i: u64, p: &Params, rep: &mut Report) {
             c
         };
         let negzero = matches!(&v1, Value::Float(f) if **f == 0.0);
-        let big = beyond(&v1) || beyond(&w1);
+        // integer -> float beyond 2^53 is the recorded inexact direction; a float beyond 2^53 is an exact
+        // integer and converts exactly to i64 or must be refused
+        let big = beyond_int(&v1);
         let sig = |kind: &str| -> String {
             if big {
                 format!("C12|{}|some number beyond 2^53 (integer -> float is not exact there)", kind)
@@ -225,7 +297,7 @@ fn case(i: u64, p: &Params, rep: &mut Report) {
                     rep.count("pairs_checked_for_injectivity");
                     if w1 == w2 {
                         rep.violation(
-                            if beyond(&v2) { "C12|not-injective|some number beyond 2^53 (integer -> float is not exact there)".to_string() } else { sig("not-injective") },
+                            if beyond_int(&v2) { "C12|not-injective|some number beyond 2^53 (integer -> float is not exact there)".to_string() } else { sig("not-injective") },
                             format!("{} and {} both convert to {}", v1, v2, w1),
                             cj(json!({"v2": v2.to_string(), "v2_debug": format!("{:?}", v2)})),
                         );
@@ -261,13 +333,178 @@ fn case(i: u64, p: &Params, rep: &mut Report) {
     }
 }
 
+/// The typed conversions (`injection::From(A).into(B)`), which the `DataType`-level entry points only
+/// partly expose (a float value, for instance, is never converted to an integer through them).
+fn typed_pair<D, C>(
+    name: &str,
+    dom: D,
+    co: C,
+    vals: &[D::Element],
+    same: &dyn Fn(&D::Element, &C::Element) -> Option<bool>,
+    known_class: &dyn Fn(&D::Element) -> Option<&'static str>,
+    rep: &mut Report,
+) where
+    D: qrlew::data_type::Variant + Clone + std::fmt::Display,
+    C: qrlew::data_type::Variant + Clone + std::fmt::Display,
+    qrlew::data_type::injection::Base<D, C>: Injection<Domain = D, CoDomain = C>,
+    D::Element: Clone + PartialEq + std::fmt::Debug,
+    C::Element: Clone + PartialEq + std::fmt::Debug,
+{
+    let built = guarded(|| qrlew::data_type::injection::From(dom.clone()).into(co.clone()));
+    let inj = match built {
+        Ok(Ok(i)) => i,
+        _ => {
+            rep.count(&format!("typed_refused:{}", name));
+            return;
+        }
+    };
+    let image = guarded(|| inj.super_image(&dom)).ok().and_then(|x| x.ok());
+    let mut done: Vec<(D::Element, C::Element)> = vec![];
+    for v in vals.iter() {
+        if !dom.contains(v) {
+            continue;
+        }
+        let w = match guarded(|| inj.value(v)) {
+            Ok(Ok(w)) => w,
+            Ok(Err(_)) => {
+                rep.count(&format!("typed_value_refused:{}", name));
+                continue;
+            }
+            Err(_) => {
+                rep.count("typed_value_panics");
+                continue;
+            }
+        };
+        rep.eval();
+        rep.count(&format!("typed_converted:{}", name));
+        rep.nontrivial(hash64(&(name.to_string(), format!("{:?}", v))));
+        let class = |kind: &str| match known_class(v) {
+            Some(c) => format!("C12|{}|{}", kind, c),
+            None => format!("C12|{}|typed {}", kind, name),
+        };
+        let case = |extra: String| json!({"conversion": name, "domain": dom.to_string(), "co_domain": co.to_string(), "v": format!("{:?}", v), "conv(v)": format!("{:?}", w), "detail": extra});
+        if let Some(t) = &image {
+            if !t.contains(&w) {
+                rep.violation(class("outside-converted-type"), format!("conv({:?}) = {:?} is not in the converted type {}", v, w, t), case(String::new()));
+            }
+        }
+        if same(v, &w) == Some(false) {
+            rep.violation(class("value-changed"), format!("conv({:?}) = {:?}: the value changed (a lossy conversion must be refused)", v, w), case(String::new()));
+        }
+        for (v0, w0) in done.iter() {
+            if v0 != v && *w0 == w {
+                rep.count("pairs_checked_for_injectivity");
+                rep.violation(
+                    match known_class(v).or(known_class(v0)) {
+                        Some(c) => format!("C12|not-injective|{}", c),
+                        None => format!("C12|not-injective|typed {}", name),
+                    },
+                    format!("{:?} and {:?} both convert to {:?}", v0, v, w),
+                    case(format!("{:?}", v0)),
+                );
+            }
+        }
+        done.push((v.clone(), w));
+    }
+}
+
+fn typed_case(i: u64, p: &Params, rep: &mut Report) {
+    use qrlew::data_type as dt;
+    use qrlew::data_type::value as val;
+    let mut r = p.rng(i ^ 0x7E_0000_0000);
+    const BIG: &str = "some number beyond 2^53 (integer -> float is not exact there)";
+    match r.below(9) {
+        0 | 1 => {
+            // float -> integer: integral floats convert exactly, the others (and those outside i64) are refused
+            let pool = [4.0, -7.0, 0.5, 2.5, 1e15, 9007199254740992.0, 9007199254740994.0, 9.3e18, -9.3e18, 9223372036854775808.0, -9223372036854775808.0, 1e19, 1e30, 2e30, -3e25, 1.8e19];
+            let fs: Vec<f64> = (0..2 + r.usize(4)).map(|_| if r.bool() { *r.pick(&pool) } else { int_any(&mut r) as f64 }).collect();
+            let vals: Vec<val::Float> = fs.iter().map(|f| (*f).into()).collect();
+            typed_pair(
+                "Float->Integer",
+                dt::Float::from_values(fs.clone()),
+                dt::Integer::default(),
+                &vals,
+                &|v, w| Some((**w as f64) == **v && (**w as i128) == (**v as i128)),
+                &|_| None,
+                rep,
+            );
+        }
+        2 => {
+            let is: Vec<i64> = (0..2 + r.usize(4)).map(|_| if r.chance(1, 3) { *r.pick(&[(1i64 << 53) + 1, (1i64 << 53) + 2, i64::MAX, i64::MAX - 1, i64::MIN, -(1i64 << 53) - 1]) } else { r.range(-1000, 1000) }).collect();
+            let vals: Vec<val::Integer> = is.iter().map(|x| (*x).into()).collect();
+            typed_pair(
+                "Integer->Float",
+                dt::Integer::from_values(is.clone()),
+                dt::Float::default(),
+                &vals,
+                &|v, w| Some((**w as i128) == (**v as i128) && w.fract() == 0.0),
+                &|v| if v.unsigned_abs() > (1u64 << 53) { Some(BIG) } else { None },
+                rep,
+            );
+        }
+        3 => {
+            let is: Vec<i64> = vec![0, 1, 2, -1, r.range(-3, 3)];
+            let vals: Vec<val::Integer> = is.iter().map(|x| (*x).into()).collect();
+            typed_pair(
+                "Integer->Boolean",
+                dt::Integer::from_values(is.clone()),
+                dt::Boolean::default(),
+                &vals,
+                &|v, w| Some((**v == 1) == **w && (**v == 0 || **v == 1)),
+                &|_| None,
+                rep,
+            );
+            let bs: Vec<val::Boolean> = vec![true.into(), false.into()];
+            typed_pair("Boolean->Integer", dt::Boolean::default(), dt::Integer::default(), &bs, &|v, w| Some((**w == 1) == **v && (**w == 0 || **w == 1)), &|_| None, rep);
+        }
+        4 => {
+            let ds: Vec<chrono::NaiveDate> = (0..3).map(|_| clamp_date(date_any(&mut r))).collect();
+            let vals: Vec<val::Date> = ds.iter().map(|d| (*d).into()).collect();
+            typed_pair("Date->DateTime", dt::Date::from_values(ds.clone()), dt::DateTime::default(), &vals, &|v, w| Some(w.date() == **v), &|_| None, rep);
+            typed_pair("Date->Text", dt::Date::from_values(ds.clone()), dt::Text::default(), &vals, &|_, _| None, &|_| None, rep);
+        }
+        5 => {
+            let base = clamp_date(date_any(&mut r)).and_hms_opt(10, 0, 0).unwrap();
+            let ts = vec![base, base + chrono::Duration::milliseconds(500), base + chrono::Duration::seconds(1), base + chrono::Duration::microseconds(1), datetime_any(&mut r)];
+            let vals: Vec<val::DateTime> = ts.iter().map(|d| (*d).into()).collect();
+            typed_pair("DateTime->Text", dt::DateTime::from_values(ts.clone()), dt::Text::default(), &vals, &|_, _| None, &|_| None, rep);
+            typed_pair("DateTime->Date", dt::DateTime::from_values(ts.clone()), dt::Date::default(), &vals, &|v, w| Some(v.date() == **w && v.time() == chrono::NaiveTime::MIN), &|_| None, rep);
+        }
+        6 => {
+            let fs: Vec<f64> = (0..4).map(|_| if r.bool() { float_any(&mut r) } else { r.range(-50, 50) as f64 / 4.0 }).filter(|f| *f != 0.0 && f.is_finite()).collect();
+            if fs.is_empty() {
+                return;
+            }
+            // adjacent floats must print differently
+            let mut all = fs.clone();
+            all.push(f64::from_bits(fs[0].to_bits() + 1));
+            let vals: Vec<val::Float> = all.iter().map(|f| (*f).into()).collect();
+            typed_pair("Float->Text", dt::Float::from_values(all.clone()), dt::Text::default(), &vals, &|v, w| w.parse::<f64>().ok().map(|x| x == **v), &|_| None, rep);
+        }
+        7 => {
+            let is: Vec<i64> = (0..4).map(|_| int_any(&mut r)).collect();
+            let vals: Vec<val::Integer> = is.iter().map(|x| (*x).into()).collect();
+            typed_pair("Integer->Text", dt::Integer::from_values(is.clone()), dt::Text::default(), &vals, &|v, w| w.parse::<i64>().ok().map(|x| x == **v), &|_| None, rep);
+        }
+        _ => {
+            let t0 = time_any(&mut r);
+            let ts = vec![t0, t0.overflowing_add_signed(chrono::Duration::milliseconds(250)).0, time_any(&mut r)];
+            let vals: Vec<val::Time> = ts.iter().map(|d| (*d).into()).collect();
+            typed_pair("Time->Text", dt::Time::from_values(ts.clone()), dt::Text::default(), &vals, &|_, _| None, &|_| None, rep);
+            let ss: Vec<String> = vec![text_any(&mut r), text_any(&mut r), "a".into(), "a ".into()];
+            let vals: Vec<val::Text> = ss.iter().map(|x| x.clone().into()).collect();
+            typed_pair("Text->Bytes", dt::Text::from_values(ss.clone()), dt::Bytes::default(), &vals, &|_, _| None, &|_| None, rep);
+        }
+    }
+}
+
 pub fn run(p: &Params) -> Report {
     let mut rep = Report::for_params("C12", p);
     let pp = p.clone();
     drive(
         p.cases,
         &mut rep,
-        &|i, rep| case(i, &pp, rep),
+        &|i, rep| if i % 5 == 4 { typed_case(i, &pp, rep) } else { case(i, &pp, rep) },
         &|i, pi, rep| {
             rep.count("harness_level_panics");
             if rep.notes.len() < 5 {
